@@ -62,8 +62,9 @@ Exit(e) ==
     /\ exp' = [exp EXCEPT ![e] = SubSeq(@, 1, Len(@) - 1)]
     /\ UNCHANGED alive
 
-(* an exception raised in the body unwinds k >= 1 nested with-blocks *)
-Raise(e, k) ==
+(* an exception raised in the body unwinds k >= 1 nested with-blocks; kind "exc" is an ordinary Exception, *)
+(* "base" one that does not derive from Exception (KeyboardInterrupt, SystemExit, asyncio.CancelledError)  *)
+Raise(e, k, kind) ==
     /\ Live /\ Running(e) /\ k >= 1 /\ k <= Len(stack[e])
     /\ ctx' = [ctx EXCEPT ![e] = stack[e][Len(stack[e]) - k + 1]]
     /\ stack' = [stack EXCEPT ![e] = SubSeq(@, 1, Len(@) - k)]
@@ -101,7 +102,7 @@ Finish(e) ==
 Next ==
     \/ \E e \in Execs, v \in BOOLEAN : Enter(e, v) \/ SetDirect(e, v)
     \/ \E e \in Execs : Exit(e) \/ Finish(e)
-    \/ \E e \in Execs, k \in 1..MaxNest : Raise(e, k)
+    \/ \E e \in Execs, k \in 1..MaxNest, kind \in {"exc", "base"} : Raise(e, k, kind)
     \/ \E p, c \in Execs : Spawn(p, c)
     \/ \E e \in Execs, what \in {"array", "negative"}, a \in BOOLEAN : Arith(e, what, a)
 
